@@ -41,7 +41,8 @@ CoveredBy(key, ord) == UNION { ys[ord[j]].subset : j \in { m \in 1..Len(ord) : y
 AxesOK(ent, ord) ==      \* collected data / time / depth / position equal the source on covered rows
     LET cov == CoveredBy(<<ent.stream, ent.fn>>, ord)
         Same(arr, src) == src = <<>> \/ (Len(arr) = Len(src) /\ \A i \in cov : arr[i] = src[i])
-    IN  /\ Same(ent.data, table.data[ent.stream])
+    IN  /\ ent.stream \in DOMAIN table.data            \* a result for a stream the data does not have is wrong as such
+        /\ Same(ent.data, table.data[ent.stream])
         /\ Same(ent.t, TimeOf(table))
         /\ Same(ent.z, table.z) /\ Same(ent.lat, table.lat) /\ Same(ent.lon, table.lon)
 
